@@ -104,6 +104,24 @@ func tagReply(tag string) proto.Message {
 
 func newBackend(tag string, svcs []string) *backend {
 	files, sds := regFiles()
+	if tag == "c2" && len(svcs) > 1 {
+		// this backend's API is written as ONE proto file declaring all its services (the others have a file per service)
+		var specs []ServiceSpec
+		for _, rs := range regServices() {
+			for _, s := range svcs {
+				if rs.Name == s {
+					specs = append(specs, rs)
+				}
+			}
+		}
+		if f1, s1, err := BuildFilesOneFile(specs); err == nil {
+			files = f1
+			sds = map[string]protoreflect.ServiceDescriptor{}
+			for _, sd := range s1 {
+				sds[string(sd.Name())] = sd
+			}
+		}
+	}
 	b := &backend{tag: tag, svcs: svcs, lis: bufconn.Listen(1 << 16), files: files}
 	b.srv = grpc.NewServer()
 	for _, s := range svcs {
